@@ -91,8 +91,8 @@ CLAIMED['C17'] = dict(
    technique="Coq proof over arbitrary file objects (scan completeness by induction on paths; import spec) + vm_compute correspondence", ref="5 C17")
 
 CLAIMED['C16'] = dict(
-   text="Proved for the two codecs whose reader produces forms the writer must accept again: for every documented metadata value the first generation is again in a (generalised) documented domain -- numpy scalars inside sequences included -- which is closed under a generation and on which save is accepted and the read-back is kind-sensitively equal, hence any number of generations; for Array calibrations the loaded Array again satisfies the C14 invariant, so the second generation has identical shape/units/names/labels and elementwise equal dim vectors. Trees (full, node, branch, below-node reads and the Metadata returned for a childless root), PointLists/PointListArrays and legacy imports are pushed through 2-3 real generations and compared by the oracle (960 objects).",
-   note=TB + MDM + "PARTIAL: tree / PointList / legacy streams are oracle-only. Domain = the documented domain of C01-C04 and the legacy files of C17 (numpy uint64 scalars >= 2^63 given as metadata read back as Python ints that cannot be saved: outside the documented kinds).",
+   text="Proved for the two codecs whose reader produces forms the writer must accept again: for every documented metadata value the first generation is again in a (generalised) documented domain -- numpy scalars inside sequences included -- which is closed under a generation and on which save is accepted and the read-back is kind-sensitively equal, hence any number of generations; for Array calibrations the loaded Array again satisfies the C14 invariant, so the second generation has identical shape/units/names/labels and elementwise equal dim vectors. For trees (model of C01): what read returned is writable and readable again and the second generation -- saved under any session configuration -- reads back as the very same tree (canon idempotent, ok_tree / rd_tree preserved). Trees (full, node, branch, below-node reads and the Metadata returned for a childless root), PointLists/PointListArrays and legacy imports are also pushed through 2-3 real generations and compared by the oracle (960 objects).",
+   note=TB + MDM + "PARTIAL: PointList / legacy streams and partial-read selections of trees are oracle-only. Domain = the documented domain of C01-C04 and the legacy files of C17 (numpy uint64 scalars >= 2^63 given as metadata read back as Python ints that cannot be saved: outside the documented kinds).",
    technique="Coq proof (closure of the documented domain under read o save, then the total codec theorem) + multi-generation oracle", ref="5 C16")
 CLAIMED['C06'] = dict(
    text="Proved for every module graph (model coq/Model/ClassLookup.v of _get_class / _get_dependent_packages / _walk_module_find_classes: modules as (hook value, namespace), members classes / modules / other objects, getmembers in name order, depth limit from the generated table): a class exposed under its own name by a hooked module -- directly or through hooked sub-modules up to the documented depth -- is the class found; built-ins are always found; whatever is found was bound under exactly the recorded name (never a substitute); a class no hooked module exposes is an error; sub-modules 0..5 deep are searched, 6+ are not; un-hooked modules are never searched (only `_emd_hook is True` opts in at top level). Custom layout: node-valued attributes are stored as custom_<type> links under their attribute names, the reader hook receives exactly those names, the tree reader exactly the tree children. Correspondence: the real _get_class on 150 synthesised sys.modules graphs (+ ~260 read-time placements), every name looked up; Custom groups of real files. End-to-end oracle: 75 scenarios of real subclass hierarchies (own reader hooks) over all six bases incl. indirect subclasses and Metadata promotion, read under 3-4 placements each (top, nested 1-5, un-hooked link, too deep, split, hook = 1, absent): exact class identity, hook-supplied argument, populate hook, content, attributes vs children; read must fail when a class is missing.",
